@@ -224,6 +224,8 @@ def handleUnitab (j : Json) : Except String Verdict := do
   if mLower != lower then return .mismatch "unitab-lower" s!"model {mLower} vs go {lower}"
   if mFold != fold then return .mismatch "unitab-fold" s!"model {mFold} vs go {fold}"
   if mSpaces != spaces then return .mismatch "unitab-space" s!"model {mSpaces} vs go {spaces}"
+  let lowBad ← getNats o "lowOkViolations"
+  if !lowBad.isEmpty then return .mismatch "unitab-lowok" s!"unicode.ToLower violates LowOk (C06 absID_injective_ci) on runes {lowBad.take 10}"
   let samples ← getArr o "samples"
   for smp in samples do
     let s ← getS smp "s"
